@@ -12,13 +12,15 @@ AlphaFull  == <<"a", "1", " ", "\n", "\"", "{", "}", "\\", "#", ".", "\r\n", "="
 \* sub-alphabets for longer strings: line accounting of strings, indentation arithmetic
 AlphaLines == <<"a", " ", "\n", "\"", "{">>
 AlphaInd   == <<"a", " ", "\n", "#">>
+\* interpolated expressions: spacing and line breaks inside the braces of a string
+AlphaInterp == <<"a", " ", "\"", "{", "}">>
 CONSTANT AlphaName
-Alpha == CASE AlphaName = "full" -> AlphaFull [] AlphaName = "lines" -> AlphaLines [] AlphaName = "indent" -> AlphaInd
+Alpha == CASE AlphaName = "full" -> AlphaFull [] AlphaName = "lines" -> AlphaLines [] AlphaName = "indent" -> AlphaInd [] AlphaName = "interp" -> AlphaInterp
 
 \* the token vocabulary: every keyword and operator spelling of the language plus literals of each class
 Vocab == << "from", "type", "class", "pure", "isa", "as", "import", "forward", ".", ",", ":", "vararg", "\\",
             "x", "fin", ":=", "+=", "-=", "*=", "/=", "^=", "<<=", ">>=", "def", "1.5", "12", "3E4", "\"s\"", "\"\"",
-            "\"a{b}c\"", "\"\"\"d\"\"\"", "..", "..=", "::", "::=", "+", "-", "*", "/", "//", "^", "mod", "sqrt",
+            "\"a{b}c\"", "\"{ b}\"", "\"{b }\"", "\"a{  b + c }d\"", "\"{\n b}\"", "\"{ \"s\" }\"", "\"x{ {1, 2} }\"", "\"{b}{ c}\"", "\"\"\"d\"\"\"", "..", "..=", "::", "::=", "+", "-", "*", "/", "//", "^", "mod", "sqrt",
             "_and_", "_or_", "_xor_", "_not_", "<<", ">>", ">", ">=", "<", "<=", "=", "is", "!=", "and", "or", "not",
             "(", ")", "[", "]", "{", "}", "|", "->", "=>", "\n", "\n    ", "_", "raise", "when", "while", "for", "in",
             "if", "then", "match", "else", "do", "continue", "break", "return", "with", "?", "handle", "pass",
